@@ -30,26 +30,16 @@ TEXT ·CumProd(SB), NOSPLIT, $0
 	JZ   cp_tail_start // if CX == 0 { goto cp_tail_start }
 
 cp_loop: // Loop unrolled 4x   do {
-	MOVUPS (SI)(AX*8), X0   // X0 = s[i:i+1]
-	MOVUPS 16(SI)(AX*8), X2
-	MOVAPS X0, X1           // X1 = X0
-	MOVAPS X2, X3
-	SHUFPD $1, X1, X1       // { X1[0], X1[1] } = { X1[1], X1[0] }
-	SHUFPD $1, X3, X3
-	MULPD  X0, X1           // X1 *= X0
-	MULPD  X2, X3
-	SHUFPD $2, X1, X0       // { X0[0], X0[1] } = { X0[0], X1[1] }
-	SHUFPD $3, X1, X1       // { X1[0], X1[1] } = { X1[1], X1[1] }
-	SHUFPD $2, X3, X2
-	SHUFPD $3, X3, X3
-	MULPD  X5, X0           // X0 *= p_prod
-	MULPD  X1, X5           // p_prod *= X1
-	MULPD  X5, X2
-	MOVUPS X0, (DI)(AX*8)   // dst[i] = X0
-	MOVUPS X2, 16(DI)(AX*8)
-	MULPD  X3, X5
-	ADDQ   $4, AX           // i += 4
-	LOOP   cp_loop          // } while --CX > 0
+	MULSD 0(SI)(AX*8), X5  // p_prod *= s[i]
+	MOVSD X5, 0(DI)(AX*8)  // dst[i] = p_prod
+	MULSD 8(SI)(AX*8), X5
+	MOVSD X5, 8(DI)(AX*8)
+	MULSD 16(SI)(AX*8), X5
+	MOVSD X5, 16(DI)(AX*8)
+	MULSD 24(SI)(AX*8), X5
+	MOVSD X5, 24(DI)(AX*8)
+	ADDQ  $4, AX           // i += 4
+	LOOP  cp_loop          // } while --CX > 0
 
 	// if BX == 0 { return }
 	CMPQ BX, $0
